@@ -18,7 +18,7 @@ from props import toycipher
 from props import bf3common as B
 from props import layoutspec as L
 
-GEN_DEPS = ("Consts.v", "gen_consts")
+GEN_DEPS = ("Consts.v", "gen_consts", "Pad.v", "gen_pad")
 MODEL_TARGETS = ["Model/Bf3.vo", "Model/Bf3Eq.vo", "Model/Cbc.vo", "Model/Layout.vo"]
 IMPORTS = "From Bec2 Require Import Gen.Consts Model.Cbc Model.Bf3 Model.Bf3Eq Model.Layout."
 OFFSETS = [0, 5, 6, 255, 256, 65535, 65536, 1 << 24]
